@@ -78,11 +78,28 @@ pub fn c18_orderbook_operations_off() {
             ref_cancel(&mut r, id);
         }
         4 => {
-            // pure reductions and same-price re-queues
-            let nv = any_u32();
-            assume(nv >= 1 && nv <= entry_order(&p.e[id]).vol);
-            w.modify_order(id, None, Some(nv));
-            ref_modify(&mut r, id, None, Some(nv));
+            // every option shape: pure reductions, same-volume and larger-volume re-queues, re-pricing
+            // (a restated current price included: the core re-queues on ANY given price)
+            let e = p.e[id];
+            let eo = entry_order(&e);
+            let np = if any_bool() { Some(g_price(true, 1)) } else { None };
+            let nv = if any_bool() {
+                let v = any_u32();
+                assume(v >= 1);
+                Some(v)
+            } else {
+                None
+            };
+            let new_v = nv.unwrap_or(eo.vol);
+            let reduces = active(&e) && np.is_none() && nv.is_some() && new_v < eo.vol;
+            if active(&e) && !reduces {
+                let (bv, av) = side_vols(&p);
+                assume((if is_bid(eo.side) { bv } else { av }) - eo.vol as u64 + new_v as u64 <= u32::MAX as u64);
+            }
+            w.modify_order(id, np, nv);
+            ref_modify(&mut r, id, np, nv);
+            vcover!(active(&e) && np == Some(eo.price) && nv.is_none(), "cover.modify_restates_the_current_price");
+            vcover!(reduces, "cover.pure_reduction");
         }
         _ => {
             let bid = any_bool();
